@@ -113,7 +113,12 @@ func (t *fnTrans) instr(in ssa.Instruction) {
 		t.set(ml.Name, fmt.Sprintf("(store %s %s 0)", t.get(t.cur, ml.Name), r))
 		t.setVal(in, Val{T: r})
 	case *ssa.MakeChan:
+		// make(chan T, n): n < 0 panics; a new channel has seen no send and no receive
+		t.oblige("safety", "make", "channel size not negative", fmt.Sprintf("(>= %s 0)", t.idxTerm(in.Size)), in.Pos())
 		r := t.newRef()
+		sent, _, recvd := t.chanVars(in.Type())
+		t.set(sent.Name, fmt.Sprintf("(store %s %s 0)", t.get(t.cur, sent.Name), r))
+		t.set(recvd.Name, fmt.Sprintf("(store %s %s 0)", t.get(t.cur, recvd.Name), r))
 		t.setVal(in, Val{T: r})
 	case *ssa.MapUpdate:
 		t.mapUpdate(in)
